@@ -163,6 +163,12 @@ def handle(module, pid, ob, twin, findings):
     if st == "confirmed":
         rec["outcome"] = "discharged"
         return rec
+    if st == "searched":
+        # IEEE refutation search that neither found a counterexample nor proved absence within its
+        # budget: reported as such, claimed as nothing
+        rec["outcome"] = "searched"
+        rec["why"] = v.get("message")
+        return rec
     if st == "refuted":
         if "args" not in v:
             rec["outcome"] = "harness"
@@ -361,6 +367,8 @@ def main(argv=None):
         "outside_claim": info.get("outside", []),
         "solver_time_s": round(solver_s, 1),
         "inconclusive": [{"name": r["name"], "why": r.get("why")} for r in harness],
+        "ieee_searches_without_verdict": [{"name": r["name"], "why": r.get("why")} for r in recs
+                                          if r["outcome"] == "searched"],
         "known_findings_hit": [f.get("id") for _, f in known],
         "per_obligation": [
             {"name": r["name"], "outcome": r["outcome"], "mode": r["mode"], "paths": r["verdict"].get("paths"),
